@@ -20,7 +20,7 @@ func VH_C10_Reverse() {
 	Y, m, d, h, mi, s := vhMoment()
 	sect := vParam("SECT")
 	base := vParam("BASE")
-	// window: the days around the Jie of this civil month (WIN=1), or the remaining days (WIN=0)
+	// window: the Jie day of this civil month (WIN=2), the three days around it (WIN=1), or the remaining days (WIN=0)
 	ref := NewSolar(Y, m, 15, 0, 0, 0).GetLunar()
 	jd := 0
 	for i := 0; i < len(JIE_QI_IN_USE); i += 2 {
@@ -29,7 +29,9 @@ func VH_C10_Reverse() {
 			jd = e.day
 		}
 	}
-	if vParam("WIN") == 1 {
+	if vParam("WIN") == 2 {
+		vAssume(d == jd)
+	} else if vParam("WIN") == 1 {
 		vAssume(d >= jd-1 && d <= jd+1)
 	} else {
 		vAssume(d < jd-1 || d > jd+1)
